@@ -158,7 +158,7 @@ class Engine:
         s.nsym = 0
         s.pos = 0
         s._model = None
-        s.depth_limit = 0; s._errno_obj = None
+        s.depth_limit = 0; s._errno_obj = None; s._category_system = None; s._category_generic = None
         s.check_seq = 0
         s.steps = 0
         s.exc = None; s.caught = []
